@@ -1080,3 +1080,53 @@ Theorem C07_codegen_simulates_heap_example_wide_runs :
   existsb (fun c => match c with STR (X 10) SP 2040 => true | _ => false end) hxw_code = true.
 Proof. exact hxw_runs. Qed.
 Print Assumptions C07_codegen_simulates_heap_example_wide_runs.
+
+(* ======================= asm_wf and code_small discharged =======================
+   `asm_wf cs = None` and `code_small cs = true` are theorems now (Props/C14.v C14_a64_compile_asm_wf,
+   C14_a64_compile_code_small; Proof/A64WfAll.v, A64WfProg.v) under boolean guards on the PROGRAM handed to the code
+   generator: no hypothesis looks at the emitted code any more.  New hypotheses (Sem/LabelGuard.v, Sem/WfGuard64.v):
+     labels_guard      the label texts are unambiguous (known finding label-collision-name-digits outside it)
+     imm_guard_a64     a type declares at most 1024 xtors (the table dispatch `ADD Xt, Xt, #4k` has a 12-bit immediate:
+                       a real limit of the back end, docs/C14.md); tags_i64
+                       follows and is dropped
+     reach_guard_a64   28 + cg_fine_defs 14 74 < 262143 instructions: the routine is shorter than the reach of B.cond /
+                       ADR (a real limit of the back end) and fits the image
+   The name without `_partial` follows the x86-64 convention (C06_codegen_simulates): what remains besides guards on the
+   program is ann_check_prog (a theorem for every output of the linearizer) and heap_fits (a bound along the run). *)
+From SCC Require Import Sem.LabelGuard Sem.WfGuard64 Proof.A64WfCor.
+
+Theorem C07_codegen_simulates :
+  forall (p : prog) (lc : N) (cs : list acode) (n : nat) (lc' : N) (args : list Z) (fuel : nat) (o : obs),
+    lin_check_prog p = true -> ann_check_prog p = true -> AxHeapTyping.entry_ext p = true ->
+    plain_names p = true -> plain_types p = true -> lits_i64 p = true ->
+    labels_guard p = true -> imm_guard_a64 p = true -> reach_guard_a64 p = true ->
+    a64_compile p lc = Ok (cs, n, lc') ->
+    List.length args = n -> args_i64 args = true -> heap_fits p args ->
+    run_linear fuel p args = o -> snd o <> OOutOfFuel ->
+    exists outer inner, fst (run_a64 outer inner cs args) = o.
+Proof. exact a64_codegen_simulates_wf. Qed.
+Print Assumptions C07_codegen_simulates.
+
+Theorem C07_codegen_correct_linearized :
+  forall (a : prog) (lc : N) (cs : list acode) (n : nat) (lc' : N) (args : list Z) (fuel : nat) (o : obs),
+    prog_ok a = true ->
+    AxHeapTyping.entry_ext (linearize a) = true -> plain_names (linearize a) = true -> plain_types (linearize a) = true ->
+    lits_i64 (linearize a) = true ->
+    labels_guard (linearize a) = true -> imm_guard_a64 (linearize a) = true -> reach_guard_a64 (linearize a) = true ->
+    a64_compile (linearize a) lc = Ok (cs, n, lc') ->
+    args_i64 args = true -> heap_fits (linearize a) args ->
+    run_linear fuel (linearize a) args = o -> defined o = true ->
+    exists outer inner, fst (run_a64 outer inner cs args) = o.
+Proof. exact a64_codegen_correct_linearized_wf. Qed.
+Print Assumptions C07_codegen_correct_linearized.
+
+(* non-vacuity: the two heap examples pass the new guards; the theorem applied to the first one *)
+Theorem C07_codegen_simulates_example_guards :
+  labels_guard hx_lin = true /\ imm_guard_a64 hx_lin = true /\ reach_guard_a64 hx_lin = true /\
+  labels_guard hxw_lin = true /\ imm_guard_a64 hxw_lin = true /\ reach_guard_a64 hxw_lin = true.
+Proof. exact hx_lin_guards_a64. Qed.
+Print Assumptions C07_codegen_simulates_example_guards.
+Theorem C07_codegen_simulates_example_applied :
+  exists outer inner, fst (run_a64 outer inner hxa_code (3 :: 100 :: nil)) = run_linear 2000 hx_lin (3 :: 100 :: nil).
+Proof. exact hxa_simulated_wf. Qed.
+Print Assumptions C07_codegen_simulates_example_applied.
